@@ -54,12 +54,14 @@ def VK.ofTime (ck : CK F) : Except Err (VK F) :=
   else if ck.powersOfG2.length - 1 > ck.powersOfG.length then .error .abort
   else .ok ⟨ck.powersOfG.take (ck.powersOfG2.length - 1), ck.powersOfG2⟩
 
-/-- `From<&CommitterKeyStream> for VerifierKey`: the *last* stream element is `g`; all of
-`powers_of_g2`.  (Only one G1 element: see `verifyMultiPoints`.) -/
+/-- `From<&CommitterKeyStream> for VerifierKey`: all of `powers_of_g2`; of the G1 stream (decreasing
+powers) the last `take = min(max(max_eval_points, 1), len)` elements, reversed into increasing
+order (`assert!(len > 0)`; `max_eval_points = powers_of_g2.len().saturating_sub(1)`). -/
 def VK.ofSpace (ck : CKS F) : Except Err (VK F) :=
-  match ck.powersOfG.getLast? with
-  | none => .error .abort
-  | some g => .ok ⟨[g], ck.powersOfG2⟩
+  if ck.powersOfG.length = 0 then .error .abort
+  else
+    let take := min (max (ck.powersOfG2.length - 1) 1) ck.powersOfG.length
+    .ok ⟨(ck.powersOfG.drop (ck.powersOfG.length - take)).reverse, ck.powersOfG2⟩
 
 /-! ### helpers of `mod.rs` -/
 
@@ -195,15 +197,17 @@ def mpLoop (zsBE : List F) : List F → List F → List F → F → Except Err (
 /-- `CommitterKeyStream::open_multi_points`.  `zeros.degree()` is `coeffs.len() - 1` (the vanishing
 polynomial is monic, its vector exact); `zeros.coeffs[deg - i - 1]`, `i = 0..m`, is the big-endian
 vector without its leading coefficient.  Bases skipped by `len(srs) - len(f) + deg` (underflow
-aborts); the first `m` stream items are `unwrap`ped (fewer aborts).  Returns the remainder window
-(big-endian, `m` entries) and the quotient commitment. -/
+aborts).  The window starts as `missing = m.saturating_sub(len f)` zeros followed by the first
+`m - missing` stream items.  Returns the remainder window (big-endian, `m` entries) and the quotient
+commitment. -/
 def openMultiPoints (ck : CKS F) (pBE : List F) (pts : List F) : Except Err (List F × F) :=
   let zeros := vanishing pts
   let deg := zeros.length - 1
+  let missing := pts.length - pBE.length
   if ck.powersOfG.length < pBE.length then .error .abort
-  else if pBE.length < pts.length then .error .abort
   else
-    mpLoop zeros.reverse.tail (pBE.take pts.length) (pBE.drop pts.length)
+    mpLoop zeros.reverse.tail (List.replicate missing 0 ++ pBE.take (pts.length - missing))
+      (pBE.drop (pts.length - missing))
       (ck.powersOfG.drop (ck.powersOfG.length - pBE.length + deg)) 0
 
 end Space
